@@ -56,7 +56,7 @@ class CFG:
         body = func.body if hasattr(func, "body") else func
         ends = self._build_block(body, [self.entry], [])
         for e in ends:
-            self._edge(e, self.exit_return, "fall")
+            self._edge(e if isinstance(e, int) else e[0], self.exit_return, "fall")
 
     # ------------------------------------------------------------ building
     def _new(self, kind, stmt=None, expr=None) -> int:
